@@ -124,7 +124,7 @@ def build(p, ctx=None):
     if op == 'cacheEager':
         return ds.cache(lazy=False)
     if op == 'catch':
-        return ds.catch(exc_tuple(p['E']))
+        return ds.catch(exc_tuple(p['E']), warn=bool(p.get('warn')))
     if op == 'copy':
         return ds.copy(freeze=p['freeze'])
     if op == 'prefetch':
